@@ -603,7 +603,8 @@ pub fn runtime() -> tokio::runtime::Runtime {
 }
 /// Load through erbium's own loader (string-loader hook).  None = rejected (or panicked: Err).
 pub fn load(rt: &tokio::runtime::Runtime, yaml: &str) -> Result<Option<erbium::config::SharedConfig>, ()> {
-    match catch(|| rt.block_on(erbium::config::verif_load_config_from_string(yaml))) {
+    let _ = rt;
+    match catch(|| erbium::config::verif_load_config_from_string(yaml)) {
         None => Err(()),
         Some(Ok(c)) => Ok(Some(c)),
         Some(Err(_)) => Ok(None),
@@ -917,7 +918,7 @@ pub fn gen_conf(r: &mut Rng, g: &GenCfg, lens: (u8, u8)) -> (Conf, World) {
     }
     // a net only policies know about
     if r.chance(1, 3) {
-        w.nets.push(gen_net(r, lens.0.max(16), lens.1));
+        w.nets.push(gen_net(r, lens.0.max(16), lens.1.max(16)));
     }
     c.dns = match r.below(4) {
         0 => None,
